@@ -133,6 +133,9 @@ class E1(Base):
     #: share of online-class runs finalised late by injected finalize calls
     LATE_FIN = 0.0
     OBS_KINDS = None
+    #: share of runs that construct (and finalise) with numpy integers and/or
+    #: keyword arguments
+    CALL_FORMS = 0.08
 
     #: share of runs drawn from the large-N stratum (cheap unit counts)
     LARGE = {"quick": 0.04, "thorough": 0.08}
@@ -187,6 +190,12 @@ class E1(Base):
             rng.random()
         else:
             cfg, passes = self.draw_slot(rng, tier)
+            u = rng.random()
+            if u < self.CALL_FORMS and cfg["p"]:
+                # unusual but legal calling forms: numpy integers, keywords
+                cfg["p"]["call"] = rng.choice(("np", "np", "kw", "npkw"))
+            if "uf" in cfg["p"] and rng.random() < 0.3:
+                cfg["p"]["costs_int"] = True
         style = "every" if rng.random() < 0.7 else "first"
         if rng.random() < 0.3:
             style += "+for"
